@@ -99,8 +99,14 @@ def analyse(facts, tier):
         for w, ss in by_writer.items():
             wshort = re.sub(r'\(.*', '', w)
             if guarded and g.get('scope_fn') and g['scope_fn'] in w:
+                if any(s.get('dep_arg') for s in ss):
+                    # thread-safe, but the value is computed from the arguments / the instance of the FIRST call and then serves all
+                    obls.append(Obl('C14.R1', wshort, 'write ' + gname, ss[0]['loc'], 'finding',
+                                    why='function-static initialised once from a value that depends on the calling instance: the first instance created in the process fixes it for every later instance (cross-instance interference without any data race)',
+                                    detail={'class': 'first-instance-frozen', 'bytes': g['bytes']}))
+                    continue
                 obls.append(Obl('C14.R1', wshort, 'write ' + gname, ss[0]['loc'], 'discharged',
-                                why='C++11 guarded function-static initialisation (thread-safe, executed once)'))
+                                why='C++11 guarded function-static initialisation from instance-independent values (thread-safe, executed once)'))
                 continue
             dep = any(s.get('dep_arg') for s in ss)
             cls = 'instance-dependent' if dep else 'lazy-table'
